@@ -106,7 +106,14 @@ def build(case):
     kind, tracks, spt, ext = case['kind'], case['tracks'], case['spt'], case['ext']
     n = tracks * spt
     total = case.get('total', min(n, 1023))
-    if kind == 'opus':
+    if kind == 'opus' and case.get('voltracks'):
+        vols = {}
+        trk = 1
+        for L, nt in zip('ABCDEFGH', case['voltracks']):
+            vols[L] = (trk, disc.Volume([disc.Entry(b'F' + L.encode(), b'$', False, 0, 0, 300, 2)], b'V' + L.encode(), 1, 0, nt * 18))
+            trk += nt
+        surf, _ = disc.opus_surface(vols, tracks, case.get('tag', 'b').encode())
+    elif kind == 'opus':
         surf, _, _ = images.opus_surface(tracks)
     else:
         first = 4 if kind == 'watford' else 2
@@ -207,6 +214,13 @@ def fam_matrix(tier):
                         if kind != 'opus':
                             c['total'] = total
                         yield c
+    # Opus volume sizes: every combination of 1-, 2- and 3-track volumes for 1..3 volumes, and eight one-track volumes
+    import itertools as _it
+    combos = [c for n in (1, 2, 3) for c in _it.product((1, 2, 3), repeat=n)] + [(1,) * 8, (1, 1, 1, 1, 2)]
+    for vt in combos:
+        for tr in (40, 80):
+            yield {'kind': 'opus', 'tracks': tr, 'spt': 18, 'ext': 'sdd', 'voltracks': list(vt), 'want': 'opus', 'sig': 'C13:matrix:opus:volume-sizes',
+                   'note': 'opus %d tracks, volumes of %s tracks' % (tr, vt), 'differential': True}
     for tr, spt, ext in ((40, 10, 'ssd'), (80, 18, 'sdd')):
         yield {'kind': 'acorn', 'tracks': tr, 'spt': spt, 'ext': ext, 'hdfs': True, 'sig': 'C13:hdfs-flag', 'note': 'HDFS flag bit set'}
 
